@@ -75,6 +75,10 @@ func init() {
 	}
 	reg("C02", "All histories over multi-path, re-entry, sibling-scope and retry-after-failure alphabets up to the bounds; over the whole execution log: successful exits per function <= 1, no entry after success, no re-entry, one instance per result.", c02Units,
 		"a function instance is one accepted registration; tokens carry a process-unique serial standing for pointer identity")
+	// unbounded re-entry of a constructor or decorator ends in a fatal stack
+	// overflow before any user function is entered twice: for C02 the death
+	// of the worker on a transition is itself the violation
+	explore.Lookup("C02").DeathIsViolation = true
 	reg("C03", "All histories over alphabets with bystander constructors in every scope, soft feeders and the non-executing ops Visualize/String; executed set of every Invoke compared with the model's may-run / must-run closures.", c03Units,
 		"may-run is an over-approximation, must-run an under-approximation (DESIGN.md §3.6-4)")
 	reg("C04", "All dependency chains/trees of depth <=3 over required / optional / named-optional / nested-object / group edges with every node present or missing in every placement, invoked from every scope; three-valued missing/optional oracle.", c04Units,
@@ -128,6 +132,12 @@ func c02Units(tier string) []Unit {
 				decos: []*uFunc{dA}, invokes: []*uFunc{iA, iB, iC}}, d, explore.Budget{Provides: 3, Decorates: 1, Invokes: inv, Rejected: 0})
 		}
 	}
+	// the decorated group demanded again, from a scope further down, while its
+	// decorator is being built (exported constructor resolving below the
+	// decorating scope)
+	deepPrefix := []Op{scopeOp(0), scopeOp(1), provide(0, fG1), provide(0, pB0)}
+	add("group-decorator-reentry-from-below", h.Config{}, nil, deepPrefix, alpha{scopes: []int{1, 2}, ctors: []*uFunc{exported(pG), pG},
+		decos: []*uFunc{dGwB, dBwC, dG}, invokes: []*uFunc{iG, iB, iC}}, 6, explore.Budget{Provides: 1, Decorates: 2, Invokes: 3, Rejected: 0})
 	// a failure that strikes while a constructor is being re-entered through a
 	// decorator (the inner run has completed, the outer one is still building
 	// its arguments): the completed run stays the only one
@@ -441,6 +451,8 @@ func c12Units(tier string) []Unit {
 		add(name+"/group", h.Config{}, nil, pre, alpha{scopes: sc, ctors: []*uFunc{fG1, pG},
 			decos: []*uFunc{dG}, invokes: []*uFunc{iG, iGs, iC}}, d, b)
 	}
+	add("group-decorator-reentry-from-below", h.Config{}, nil, []Op{scopeOp(0), scopeOp(1), provide(0, fG1), provide(0, pB0)}, alpha{scopes: []int{1, 2}, ctors: []*uFunc{exported(pG), pG},
+		decos: []*uFunc{dGwB, dBwC, dG}, invokes: []*uFunc{iG, iB, iC}}, 6, explore.Budget{Provides: 1, Decorates: 2, Invokes: 3, Rejected: 0})
 	add("defer/mixed", h.Config{Defer: true}, nil, prefixChild, alpha{scopes: []int{0, 1}, ctors: []*uFunc{pA, pB, fG1},
 		decos: []*uFunc{dA, dAB, dG}, invokes: []*uFunc{iA, iB, iG}}, d, b)
 	if !q {
